@@ -24,7 +24,9 @@ ASSUMPTIONS = ["connection maps keep the design acyclic (child inputs attach to 
                "strip_blackboxes: ignore_pins is exercised on input pins only (ignoring a connected output pin leaves its load undriven by design)"]
 
 PARENT = {"name": "parent", "nodes": [["a", "input", [], False], ["b", "input", [], False], ["g", "and", ["a", "b"], False],
-                                      ["w1", "buf", [], False], ["w2", "buf", [], False], ["o", "or", ["g", "w1"], True]]}
+                                      ["w1", "buf", [], False], ["w2", "buf", [], False], ["o", "or", ["g", "w1"], True],
+                                      # a plain node whose name contains a dot (escaped / flattened names); not a pin
+                                      ["v.n", "not", ["a"], False]]}
 SOCKETS = ["w1", "w2"]
 
 
@@ -242,9 +244,10 @@ def check_strip(acc, c, insts, case, ignore):
     except (refsim.RefError, KeyError) as e:
         acc.violation("strip", "result-unevaluable", cc, repr(e))
         return
+    pin_names = {x for x in c.graph.nodes if c.graph.nodes[x]["type"] in ("bb_input", "bb_output")}
     for n, w in want.items():
-        m = n if n in val else ren(n)
-        if "." in n and n.split(".")[-1] in ign:
+        m = n if (n in val or n not in pin_names) else ren(n)   # only pins are renamed inst.pin -> inst_pin
+        if n in pin_names and n.split(".")[-1] in ign:
             continue
         if m not in val or val[m] != w:
             acc.violation("strip", "function-differs-after-strip", dict(cc, node=n), f"node {n}")
